@@ -289,7 +289,8 @@ class TreeGen:
             if bool_only or r > int_p + wide_p:
                 self.leaves[n] = (0, 1)
             elif r < wide_p:
-                self.leaves[n] = rng.choice([(-32768, 32767), (0, 32767), (-1000, 1000), (-128, 127), (-128, 3), (-32768, 2)])
+                self.leaves[n] = rng.choice([(-32768, 32767), (0, 32767), (-1000, 1000), (-128, 127), (-128, 3), (-32768, 2),
+                                             (0, 100000), (-70000, 70000)])     # the last two: wider than the default integer range
             else:
                 lo = rng.randint(-3, 2)
                 self.leaves[n] = (lo, lo + rng.choice([0, 1, 1, 2, 2, 3, 3]))       # width 0: a leaf declared constant
@@ -323,6 +324,13 @@ class TreeGen:
                     a = self.class_variant(a)
                 elif rng.random() < 0.5:
                     a = self.respell(a)
+                elif "id" not in a and a.get("c") not in ("Not", "var", "str"):
+                    # the copy carries, as an explicit id, the id that was generated for the original
+                    try:
+                        gid = self.obj_id(a)
+                        a = dict(a); a["id"] = gid; a["$k"] = self.key()     # (its own object, not the cached unnamed one)
+                    except Exception:
+                        pass
             return a
         kind = rng.choice(self.classes)
         n_args = 1 if kind == "Not" else 2 if kind == "Imply" else rng.randint(1, self.max_arity)
@@ -566,6 +574,7 @@ def gen_valid(rng, quick=True, twins=True, **kw):
         g = TreeGen(rng, n_leaves=rng.randint(2, 4 if quick else 6), max_depth=rng.randint(1, 3 if quick else 4), **kw)
         try:
             a, o = g.tree()
+            o = build(a)        # what the checks will build from the AST (never the generator's own, possibly cached, objects)
         except Exception:
             continue
         t = snap(o)
